@@ -316,7 +316,8 @@ func (t *tr) finish() {
 					sc.where = cl.Where
 					if kn := t.knownFor(cl.Label); kn != nil {
 						// known finding: the clause is proved under the exclusion, and checked without it separately
-						excl := t.spec(kn.Expr, &specCtx{pkg: sc.pkg, vars: sc.vars, cur: Env{}, old: Env{}, qn: sc.qn, where: kn.Where})
+						// the exclusion is evaluated like an ensures clause (final state; old(...) for entry values)
+						excl := t.spec(kn.Expr, &specCtx{pkg: sc.pkg, vars: sc.vars, cur: sc.cur, old: Env{}, qn: sc.qn, where: kn.Where})
 						t.assert(implies(excl, t.spec(cl.Expr, sc)), "post", cl.Label+"~excl", t.u.Body.End(), "postcondition under known-finding exclusion: "+cl.Text)
 						ob := t.assert(t.spec(cl.Expr, sc), "post", cl.Label, t.u.Body.End(), "postcondition: "+cl.Text)
 						if ob != nil {
